@@ -344,7 +344,7 @@ func c17LinRun(c fw.Case) fw.Verdict {
 			lines = lines[:60]
 		}
 		return fw.Verdict{Status: fw.Violated, Key: "history-not-linearizable/" + typ, NonTrivial: true, Sig: v.Sig, Counters: v.Counters,
-			What: fmt.Sprintf("the calls recorded on one %s store handle (%d goroutines, handler %s) have no order that respects real time and explains every read: a read returned a value that was not the latest acknowledged one (or missed an acknowledged write)", typ, g, handler),
+			What:  fmt.Sprintf("the calls recorded on one %s store handle (%d goroutines, handler %s) have no order that respects real time and explains every read: a read returned a value that was not the latest acknowledged one (or missed an acknowledged write)", typ, g, handler),
 			Trace: lines}
 	}
 	// at rest the view equals the replay (shared oracle)
